@@ -162,6 +162,9 @@ class MinPathCover(pathmodel.AbstractPathModelDAG):
 
     def solve(self) -> bool:
 
+        # A new run starts: what an earlier run on this object proved does not count for this one
+        self._is_solved = False
+        self._solution = None
         self.solve_time_start = time.perf_counter()
         
         for i in range(self.get_lowerbound_k(), self.G.number_of_edges() + 1):
